@@ -442,6 +442,41 @@ def check_logs(problems):
         p.close()
 
 
+def check_directives(problems):
+    """C10: every resource directive carries the resolved value; SGE memory is converted to per-core memory (total //
+    cores, unit kept, whatever its case); each option appears exactly once"""
+    env = Env()
+    try:
+        ops = make_ops(env)
+        sge = ops["sge"][0]
+        for mem, cores, want in (("16g", 4, "4g"), ("16G", 4, "4G"), ("8000m", 2, "4000m"), ("512M", 1, "512M"),
+                                 ("12GB", 3, "4GB"), ("7g", 2, "3g")):
+            t = target(env, cores=cores, memory=mem, walltime="01:00:00")
+            head = [l for l in sge.compile_script(t).splitlines() if l.startswith("#$ ")]
+            got = [l.split("h_vmem=", 1)[1] for l in head if "h_vmem=" in l]
+            if got != [want] or [l for l in head if l.startswith("#$ -pe smp")] != [f"#$ -pe smp {cores}"]:
+                problems.append(f"directives: sge memory={mem!r} cores={cores}: per-core memory directive {got}, expected "
+                                f"[{want!r}] (one -l h_vmem= line, total // cores with the unit kept); "
+                                f"-pe lines {[l for l in head if '-pe' in l]}")
+        slurm = ops["slurm"][0]
+        t = target(env, cores=8, memory="12g", walltime="02:30:00", queue="short", account="acc1")
+        head = [l for l in slurm.compile_script(t).splitlines() if l.startswith("#SBATCH ")]
+        for frag in ("-c 8", "--mem=12g", "-t 02:30:00", "-p short", "-A acc1"):
+            n = sum(1 for l in head if l == "#SBATCH " + frag)
+            if n != 1:
+                problems.append(f"directives: slurm options cores=8 memory=12g walltime=02:30:00 queue=short account=acc1: "
+                                f"'#SBATCH {frag}' appears {n} times in {head}")
+        lsf = ops["lsf"][0]
+        t = target(env, cores=3, memory="2GB", queue="long")
+        head = [l for l in lsf.compile_script(t).splitlines() if l.startswith("#BSUB ")]
+        for frag in ("-M 2GB", "-n 3", "-q long"):
+            n = sum(1 for l in head if l == "#BSUB " + frag)
+            if n != 1:
+                problems.append(f"directives: lsf options cores=3 memory=2GB queue=long: '#BSUB {frag}' appears {n} times in {head}")
+    finally:
+        env.close()
+
+
 def check_option_resolution(problems):
     """C10: what reaches the backend is: backend default < the target's own option, for the keys the backend knows;
     an option resolved to None is omitted, an unknown option dropped. Real gwf.scheduling.submit_backend with a
@@ -508,6 +543,7 @@ def run(which):
         p = " ".join(problems)
         wc = ("option-resolution" if problems[0].startswith("options:") else
               "log-files" if problems[0].startswith("logs:") else
+              "resource-directives" if problems[0].startswith("directives:") else
               "command-failure-kinds" if problems[0].startswith("failures:") else
               "sge-id-with-newline" if "sge" in problems[0] and "4242" in problems[0] else
               "cd-unquoted" if "the spec ran in" in p else "ops-other")
